@@ -415,15 +415,17 @@ func (c *Ctx) enterBlock(st *State, b *ssa.BasicBlock) bool {
 		}
 		if al == nil {
 			if st.Disc != nil {
+				setPhis()
+				c.ghostAt(st, fr, "loop-end:"+loop.ID, loop) // records the ghost variables the loop writes
 				return true
 			}
 			panic(VerErr{"back edge without active loop record in " + fr.Fn.String()})
 		}
 		setPhis()
+		c.ghostAt(st, fr, "loop-end:"+loop.ID, loop)
 		if st.Disc != nil {
 			return true
 		}
-		c.ghostAt(st, fr, "loop-end:"+loop.ID)
 		c.checkInvariant(st, fr, loop, ls, "preserved", al)
 		c.checkCalls(st, fr, "loop "+loop.ID+" back edge")
 		c.EndedPaths++
@@ -431,6 +433,7 @@ func (c *Ctx) enterBlock(st *State, b *ssa.BasicBlock) bool {
 	}
 	// entry edge
 	setPhis()
+	c.ghostAt(st, fr, "loop-entry:"+loop.ID, loop)
 	if st.Disc == nil {
 		c.checkInvariant(st, fr, loop, ls, "entry", nil)
 	}
@@ -1081,6 +1084,22 @@ func (c *Ctx) binop(st *State, in ssa.Instruction, op token.Token, xv, yv Value,
 	case token.OR:
 		if isNum(x) && isNum(y) {
 			return IntBig(new(big.Int).Or(x.Val, y.Val))
+		}
+		if isNum(x) && !isNum(y) {
+			x, y = y, x
+		}
+		if isNum(y) && y.Val.Sign() >= 0 {
+			// x | c == (x - (x & c)) + c   (the cleared bits are then set)
+			xc := c.binop(st, nil, token.AND, x, y, xt, yt, rt).(*Term)
+			return Arith("+", Arith("-", x, xc), y)
+		}
+	case token.AND_NOT:
+		if isNum(x) && isNum(y) {
+			return IntBig(new(big.Int).AndNot(x.Val, y.Val))
+		}
+		if isNum(y) && y.Val.Sign() >= 0 {
+			xc := c.binop(st, nil, token.AND, x, y, xt, yt, rt).(*Term)
+			return Arith("-", x, xc)
 		}
 	case token.SHL:
 		if isNum(y) && y.Val.IsInt64() && y.Val.Int64() < 63 && y.Val.Sign() >= 0 {
